@@ -23,3 +23,6 @@ func NoteHook(point string) {
 		atomic.StoreInt32(&loopSeen, 1)
 	}
 }
+
+// ResetLoopSeen forgets the previous instance's loop.
+func ResetLoopSeen() { atomic.StoreInt32(&loopSeen, 0) }
